@@ -50,6 +50,18 @@ def gen_case(rng, thorough):
             ops.append({"op": "listRules", "loc": loc, "inherited": True})
         else:
             ops.append({"op": "getParents", "loc": loc})
+    if k >= 2 and rng.random() < 0.25:
+        # directed: a rule with a pattern condition (an inherited fact search between rule lookup and action) and an action that
+        # writes through Env.AddFact / Env.RemFact, dispatched in a location that has a parent: the write belongs to the event's location
+        child, par = rng.sample(locs, 2)
+        # (the fact written or removed has no key a condition asks for: the order in which Go visits the rules must not matter)
+        t = rng.choice([{"t": "addfact", "id": "wd" + child, "fact": {"written": "by-" + child}}, {"t": "remfact", "id": "victim"}])
+        ops += [{"op": "setParents", "loc": child, "parents": [par]},
+                {"op": "addFact", "loc": child, "id": "victim", "fact": {"written": "to-be-removed"}}, {"op": "addFact", "loc": par, "id": "victim", "fact": {"written": "stays"}},
+                {"op": "addFact", "loc": rng.choice([child, par]), "id": "f1" + child, "fact": {"k": 1, "at": child}},
+                {"op": "addFact", "loc": par, "id": "f1" + child if rng.random() < 0.5 else "f2" + par, "fact": {"k": 2, "at": par}},
+                {"op": "addRule", "loc": rng.choice([child, par]), "id": "rd" + child, "rule": {"when": {"pattern": {"go": "?x"}}, "condition": {"pattern": {"k": "?k"}}, "action": {"code": js_of_tmpl(t), "verif_tmpl": t}}},
+                {"op": "event", "loc": child, "event": {"go": 1}}]
     for l in locs: ops.append({"op": "snapshot", "loc": l})
     return locs, ops
 
@@ -115,4 +127,5 @@ def main():
     proof_verdict(ck, pr)
     ck.finish()
 
-main()
+if __name__ == "__main__":
+    main()
